@@ -223,4 +223,8 @@ def run():
         "Bounded (labelled, not counted as proved): exhaustive create() over short strings, emit(parse(x))==x with every token classified over the corpus, "
         "and the no-rewrite behaviour through the real CLI. The classifier package (170 modules) is not under contract."
     )
+    if c.tier == "thorough":
+        from pyvc.checklib import run_selftest
+
+        run_selftest(c, ["mutants_tokens.py"], token_quals)
     return c.finish({"explanation": expl})
